@@ -72,7 +72,9 @@ def _run(spec, prefix):
 
 
 def jobs(tier, seed):
-    out = []
+    from . import c08
+
+    out = [{"texts": True, "ia": ia, "tier": tier} for ia in range(len(c08.declarations()))]
     for name, proj in project_list(tier):
         for cfg in configs(name, tier):
             spec = {"name": name, "proj": proj, "cfg": cfg, "bound": bound_for(name, tier)}
@@ -90,7 +92,32 @@ def _overlap(obs):
     return any(wins[i + 1][0] < wins[i][1] for i in range(len(wins) - 1))
 
 
+def run_texts(spec):
+    """Every ordered pair of declarations in both arrival orders: the rejection text must agree."""
+    from . import c08
+
+    sub = Acc()
+    c08.run_pairs({"ia": spec["ia"], "tier": spec["tier"]}, sub)
+    acc = Acc()
+    acc.evaluations = sub.evaluations
+    acc.transitions = sub.transitions
+    acc.states = {"t" + s for s in sub.states}
+    acc.nontrivial = {"t" + s for s in sub.nontrivial}
+    for rec in sub.extra.get("texts", []):
+        kinds = {rec["claims"][0][0], rec["claims"][1][0]}
+        cls = f"{min(rec['a'], rec['b'])}|{max(rec['a'], rec['b'])}"
+        if kinds == {"inp", "vol"}:
+            cls = "input-vs-volatile-output"
+        elif kinds == {"tree"}:
+            cls = "nested-static-trees"
+        acc.violation(f"C02|text-depends-on-order|{cls}",
+                      {"why": "the text of the rejection depends on which declaration arrived first", **rec}, None)
+    return acc
+
+
 def run_job(spec):
+    if spec.get("texts"):
+        return run_texts(spec)
     acc = Acc()
     name = spec["name"]
     oc = acc.extra.setdefault("oc", {})
